@@ -483,12 +483,14 @@ WillFire(c, topic, ms) ==
   /\ Wills[c].m.topic = topic
   /\ ms >= Wills[c].due - WillEarlyMs
   /\ (Wills[c].st = "pending" => ms <= Wills[c].due + WillLateMs)
-  /\ LET w == Wills[c].m IN
-     Publication(c, [topic |-> w.topic, lv |-> w.lv, sys |-> w.sys, qos |-> w.qos, retain |-> w.retain, empty |-> FALSE,
-                     tag |-> w.tag, pid |-> 0, dup |-> FALSE, alias |-> 0, notopic |-> FALSE, size |-> 0, fsize |-> 0,
-                     msgexp |-> 0, ms |-> ms, props |-> w.props])
+  /\ LET w == Wills[c].m
+         m == [topic |-> w.topic, lv |-> w.lv, sys |-> w.sys, qos |-> w.qos, retain |-> w.retain, empty |-> FALSE,
+               tag |-> w.tag, pid |-> 0, dup |-> FALSE, alias |-> 0, notopic |-> FALSE, size |-> 0, fsize |-> 0,
+               msgexp |-> 0, ms |-> ms, props |-> w.props] IN
+     \* a will registered with Will Retain = 1 is published as a retained message ([MQTT-3.1.2-17]): it is kept (C07)
+     Publication(c, m) /\ RetainUpdate(m)
   /\ aux' = [aux EXCEPT !.wills = [x \in DOMAIN Wills \ {c} |-> Wills[x]]]
-  /\ UNCHANGED <<cfg, subs, conn, sess, ctl, ret, unack, infl, last>>
+  /\ UNCHANGED <<cfg, subs, conn, sess, ctl, unack, infl, last>>
 
 \* PUBACK / PUBREC read on k: owed, with an acceptable reason code
 PubAckRecv(k, t, pid, code) ==
